@@ -247,7 +247,7 @@ _prop('C11',
              partial(rules_effects.rule_ef_new,
                      only={'partition', 'collapse'}),
              rules_table.rule_or_errcheck],
-      minima={'AX-CTOR': 8, 'AX-MATOP': 1, 'EF-NEW': 1, 'OR-ERRCHECK': 8},
+      minima={'AX-CTOR': 8, 'AX-MATOP': 1, 'EF-NEW': 1, 'OR-ERRCHECK': 2},
       rule_texts=ALL_TEXT, trusted=[SCIPY_TRUST],
       assumptions=['group membership, sums and division are runtime '
                    'arithmetic, not decided'])
@@ -340,10 +340,11 @@ PROPS['C13']['rules'] += [X.rule_norm_divisor]
 PROPS['C14']['rules'] += [X.rule_json_slicer_order,
                           X.rule_requested_ids_cast]
 PROPS['C15']['rules'] += [rules_validator.rule_written_constants]
-PROPS['C16']['rules'] += [ax_kinds(['DDICT', 'MAJOR', 'TRUTH', 'REINDEX'])]
+PROPS['C16']['rules'] += [ax_kinds(['DDICT', 'MAJOR', 'REINDEX'])]
 PROPS['C17']['rules'] += [X.rule_cast_metadata,
                           X.rule_adjacency_accumulates, X.rule_mdsize_guard]
-PROPS['C19']['rules'] += [X.rule_minmax, X.rule_md_dataframe_order]
+PROPS['C19']['rules'] += [X.rule_minmax, X.rule_md_dataframe_order,
+                          ax(['_summarize_table'])]
 PROPS['C20']['rules'] += [X.rule_mdsize_guard]
 for _p in ('C01', 'C03', 'C04', 'C14', 'C15', 'C16', 'C20', 'C02', 'C07'):
     for _k, _v in ALL_TEXT.items():
@@ -414,11 +415,45 @@ PROPS['C16']['rules'] += [R2.rule_eq_aggregates]
 PROPS['C17']['rules'] += [R2.rule_uc_kinds, R2.rule_adjacency_all_records]
 PROPS['C18']['rules'] += [R2.rule_converter_every_field]
 PROPS['C20']['rules'] += [rules_table.rule_or_errcheck]
+PROPS['C07']['rules'] += [R2.rule_loop_rebind]
 for _p in PROPS.values():
     for _k, _v in R2.RULE_TEXT.items():
         _p['rule_texts'].setdefault(_k, ' '.join(_v.split()))
     for _k, _v in G.RULE_TEXT.items():
         _p['rule_texts'].setdefault(_k, ' '.join(_v.split()))
+
+# ---- per-property scope of shared rules -------------------------------------
+# A rule shared between properties reports on every function it covers; an
+# obligation about a function outside a property's mechanism is not evidence
+# about that property.
+def _not_io(f):
+    return f.startswith('Table.') and not f.startswith(
+        ('Table.to_', 'Table.from_', 'Table.delimited_self',
+         'Table._extract_data_from_tsv', 'Table.__str__', 'Table.__repr__'))
+
+
+def _not(*names):
+    return lambda f: not f.startswith(names)
+
+
+def _only(*names):
+    return lambda f: f.startswith(names)
+
+
+for _r in ('AX-TRUTH', 'AX-MAJOR', 'EF-DDICT'):
+    PROPS['C05'].setdefault('scope', {})[_r] = _not_io
+PROPS['C11'].setdefault('scope', {})['OR-ERRCHECK'] = _only(
+    'Table.collapse', 'Table.partition')
+PROPS['C17'].setdefault('scope', {})['OR-ERRCHECK'] = _not(
+    'Table.filter', 'Table.update_ids', 'Table.collapse')
+PROPS['C12'].setdefault('scope', {})['EF-NOMUT'] = _only(
+    'Table.subsample', '_subsample', 'subsample')
+PROPS['C01'].setdefault('scope', {})['TA-NUMLOSS'] = _not(
+    'Table.from_tsv', 'Table._extract_data_from_tsv', 'Table.from_json')
+PROPS['C02'].setdefault('scope', {})['TA-NUMLOSS'] = _not(
+    'Table.from_tsv', 'Table._extract_data_from_tsv', 'Table.from_hdf5')
+PROPS['C14'].setdefault('scope', {})['TA-NUMLOSS'] = _not(
+    'Table.from_tsv', 'Table._extract_data_from_tsv')
 
 # vacuity minima tolerate refactorings that merge or split obligations: they
 # only have to notice that the analysis lost sight of the code altogether
